@@ -255,8 +255,70 @@ def rule_c(R, ctx, rid="C17.c"):
     R.floor(rid, "update_current_attributes call sites", n, 5)
 
 
+POSITIONAL_TRAVERSALS = (
+    "yrs::block_iter::BlockIter::backward", "yrs::block_iter::BlockIter::delete", "yrs::block_iter::BlockIter::slice",
+    "yrs::block_iter::BlockIter::try_forward", "yrs::branch::Branch::get_at", "yrs::branch::Branch::index_to_ptr",
+    "yrs::branch::Branch::path", "yrs::branch::Branch::remove_at", "yrs::sticky_index::StickyIndex::get_offset",
+    "yrs::transaction::TransactionMut::cleanup_fmt_gap", "yrs::transaction::TransactionMut::cleanup_fmt_gap_contextless",
+    "yrs::types::text::find_position",
+)
+
+
+def rule_d(R, ctx, rid="C17.d", only=None):
+    Y = ctx.yrs
+    R.rule(rid, "R-GUARD positions count live elements only: in the traversals that turn an index into a place (or a place into an "
+                "index) — BlockIter moves, Branch::{get_at,index_to_ptr,remove_at,path}, StickyIndex::get_offset, text "
+                "find_position and the format clean-ups — every arithmetic step or comparison that consumes an item's length "
+                "(Item::len / content_len / Item.len) inside the walking loop is reached only through a liveness test of that "
+                "item; tombstones that are not yet collected must not shift positions (frozen function list, confirmed by reading)")
+    helpers = positive_helpers(Y)
+
+    def vis_lit(l):
+        for p in NEG_TESTS:
+            if lit_call(l, p, False):
+                return True
+        for p in POS_TESTS:
+            if lit_call(l, p, True):
+                return True
+        t = simp(l.term)
+        return t[0] == "call" and t[1] in helpers and l.polarity is True
+
+    n = 0
+    for fp in POSITIONAL_TRAVERSALS:
+        if only and fp not in only:
+            continue
+        fn = Y.fn(fp)
+        v = FnView(fn)
+        cfg = fn.cfg()
+        src = set()  # value keys of item lengths
+        for cs in fn.calls():
+            if re.search(r"Item::(len|content_len)$", F.strip_generics(cs.name)) and isinstance(cs.dest, int):
+                src.add(("local", cs.dest))
+        for i, j, st in fn.stmts():
+            o = st["rv"].get("use")
+            pl = o.get("c", o.get("m")) if isinstance(o, dict) else None
+            if isinstance(pl, dict) and pl.get("p") and isinstance(pl["p"][-1], str) and pl["p"][-1].endswith("Item.len") and isinstance(st["dst"], int):
+                src.add(("local", st["dst"]))
+        k = 0
+        for i, j, st in fn.stmts():
+            rv = st["rv"]
+            if "bin" not in rv or not cfg.in_loop(i):
+                continue
+            if not any(mir_root(fn, rv[x]) in src for x in ("a", "b")):
+                continue
+            n += 1
+            ok = v.necessary_any(i, vis_lit)
+            R.ob(rid, fn, "uses-length#%d:%s" % (k, rv["bin"].replace("WithOverflow", "")), ok,
+                 "length of the walked item is consumed under a liveness test" if ok else
+                 "the length of the walked item enters `%s` with no liveness test of that item on some path (guards: %s): an "
+                 "uncollected tombstone shifts the position" % (rv["bin"], v.guard_descs(i)[:3]), "%s:%s" % (fn.file, st["line"]))
+            k += 1
+    R.floor(rid, "length-consuming steps in positional traversals", n, 1 if only else 15)
+
+
 def check(ctx, R):
     R.run("C17.a", rule_a, ctx)
     R.run("C17.b", rule_b, ctx)
     R.run("C17.c", rule_c, ctx)
+    R.run("C17.d", rule_d, ctx)
     return {}
